@@ -18,6 +18,7 @@
 #include <yaclib/fault/verif.hpp>
 #include <yaclib/log.hpp>
 
+#include <csignal>
 #include <cstdint>
 #include <cstdio>
 #include <cstdlib>
@@ -462,9 +463,30 @@ struct Stats {
                 max_choices = 0, sum_preempts = 0, sum_weaks = 0;
 };
 
+class Explorer;
+inline Explorer* gExplorer = nullptr;
+inline void CrashHandler(int sig);
+
 class Explorer {
  public:
+  std::string current_header;
+
+  // a crash of the process while the library under test runs is a finding: report the schedule that led to it
+  void InstallCrashHandlers() {
+    gExplorer = this;
+    static char alt[1 << 16];
+    stack_t ss{};
+    ss.ss_sp = alt;
+    ss.ss_size = sizeof(alt);
+    sigaltstack(&ss, nullptr);
+    struct sigaction sa {};
+    sa.sa_handler = CrashHandler;
+    sa.sa_flags = SA_ONSTACK | SA_RESETHAND;
+    for (int sig : {SIGSEGV, SIGABRT, SIGBUS, SIGFPE, SIGILL}) sigaction(sig, &sa, nullptr);
+  }
+
   explicit Explorer(const Options& o) : opt(o) {
+    InstallCrashHandlers();
     ctx.preempt_bound = o.preempt_bound;
     ctx.weak_bound = o.weak_bound;
     ctx.random_mode = o.mode == "random";
@@ -481,6 +503,7 @@ class Explorer {
   template <typename Scenario, typename Monitor>
   void Run(const std::string& header, Scenario&& scenario, Monitor&& monitor) {
     if (!opt.only.empty() && opt.only != header) return;
+    current_header = header;
     ++stats.scenarios;
     ctx.stack.clear();
     if (opt.has_replay) {
@@ -577,5 +600,22 @@ class Explorer {
   std::vector<std::string> violations;
   std::FILE* out = nullptr;
 };
+
+
+inline void CrashHandler(int sig) {
+  // not async-signal-safe, but the process is lost anyway and the report is what matters
+  Explorer* ex = gExplorer;
+  if (ex != nullptr) {
+    ++ex->stats.violations;
+    ++ex->stats.executions;
+    std::string v = "violation: crash (signal " + std::to_string(sig) + ") while the library under test was running\nscenario: " +
+                    ex->current_header + "\nchoices: " + ex->ctx.ChoiceString() + "\ntrace:";
+    for (auto& l : ex->ctx.trace) v += "\n  " + l;
+    ex->violations.insert(ex->violations.begin(), v);
+    if (ex->out) std::fflush(ex->out);
+    ex->Report();
+  }
+  std::_Exit(1);
+}
 
 }  // namespace vx
